@@ -66,6 +66,22 @@ CHECKS = {
    text="Hover (signature content, doc-comment extraction, use = declaration) at every identifier occurrence and inlay hints (exact set over the whole file; subset and in-range for every statement range, every class-name-only range and random ranges) against expectations recorded by the SEM generator; 5000 programs per quick run.",
    note="label/signature formatting matched by containment; hints of multiclass references not asserted; fields overridden by let are exempt from the use=declaration clause",
    technique="property-based testing with a by-construction oracle"),
+ "C08": dict(cat="exploration", design="§5 C08",
+   text="The real Server runs in-process; a controlled scheduler built on schedule-point hooks (handlers, set_file_content, snapshot tasks, vfs reads) enumerates, per scenario (3 handlers x {no request, each of the 8 request kinds}, with the previous notification's diagnostics task alive), every interleaving with at most 1 preemption (thorough: 2) by stateless DFS; blocked threads are recognised from /proc (sleeping, unchanged context-switch counters), a deadlock is reported when no actor can be released while some are blocked. Plus uncontrolled bursts (all 'change, request' pairs and random operation lists on documents of 1..300 classes) where a missing answer counts only with all-threads-blocked evidence.",
+   note="liveness = completes under every enumerated schedule of these bounded scenarios at hook granularity; preemption-bounded, not all interleavings; OS pre-emption inside lock implementations is not controlled; timeouts without blocked-thread evidence are inconclusive",
+   technique="schedule enumeration (stateless DFS, preemption-bounded) with a controlled scheduler + randomized stress"),
+ "C09": dict(cat="exploration", design="§5 C09",
+   text="2000 generated multi-file sessions per quick run against the real server with per-file line structure (pushed-down headers, CRLF, non-ASCII): every range/location in definition, references, documentSymbol, foldingRange, documentLink, inlayHint answers and in published diagnostics is compared with the ide-level result converted by the independent reference position mapper against the text of the file it names.",
+   note="isolates server.rs/to_proto.rs/from_proto.rs: a wrong range computed by the ide layer appears on both sides",
+   technique="property-based testing: differential between the server's JSON and an ide-level oracle through a reference position mapper"),
+ "C11": dict(cat="exploration", design="§5 C11",
+   text="Histories of didOpen/didChange (all first-step x second-step pairs over 24 text variants, random histories up to 8 steps, back-to-back bursts) observed through the publishDiagnostics stream in lock-step; after every step the last publication per URI must equal a fresh analysis of the current state (empty for files outside the workspace) and versions must not decrease.",
+   note="buffer = disk in this check (C12 covers the difference); idle = all spawned tasks ended + barrier request",
+   technique="stateful property-based testing against a from-scratch oracle"),
+ "C12": dict(cat="exploration", design="§5 C12",
+   text="Exhaustive enumeration of all sessions of up to 4 (thorough 5) open/change events over a root and an included document whose disk and buffer texts differ observably, compared after every step with a reference session model (disk overlaid by open buffers, root = last touched).",
+   note="didClose is not part of the modelled sessions",
+   technique="exhaustive small-scope enumeration of sessions against a reference model"),
 }
 
 REASON_WIP = "check not built yet in this session (work in progress; see DESIGN.md for the planned generator and oracle)"
